@@ -37,13 +37,14 @@ func runSimLock(rep *Report) {
 			continue
 		}
 		r := &engine.RNG{S: progSeed(*fSeed, i)}
-		d := simdisk.New(fmt.Sprintf("simlock%d", i))
+		d := simdisk.New(fmt.Sprintf("simfile%d", i)) // no "lock" in the name: errors are classified by their text
 		d.StrictUnmap = true
 		ps := uint32(4096)
 		pages := uint64(32 + r.Intn(200))
 		opts := txfile.Options{PageSize: ps, MaxSize: pages * uint64(ps), Prealloc: r.Chance(30)}
 		var held *txfile.File
 		var trace []string
+		created := false // faults are injected only once the file exists: a failed creation leaves no valid file
 		emit("new")
 		steps := 14
 		if *fTier == "thorough" {
@@ -97,12 +98,12 @@ func runSimLock(rep *Report) {
 				if res != "ok" {
 					fail(i, "reopen-blocked", "Open failed (%s) although no File is open (lock held: %v): %v", res, d.Locked(), trace)
 				} else {
-					held = f
+					held, created = f, true
 					if !d.Locked() {
 						fail(i, "not-locked", "file is open but the path lock is not held: %v", trace)
 					}
 				}
-			case held == nil && op <= 6: // open with an injected fault during initialisation
+			case held == nil && op <= 6 && created: // open with an injected fault during initialisation
 				kind := arm()
 				o := opts
 				if r.Chance(40) {
